@@ -38,7 +38,7 @@ POSSIBILITY OF SUCH DAMAGE.
 NTR:
 '''
 
-from ..basis import Params, SearchFacade, SearchResults
+from ..basis import Params, Range, SearchFacade, SearchResults
 from .enums import Table
 from .state import DBI
 from .util import dissect, prime_keys
@@ -49,10 +49,15 @@ class SearchImplementation(SearchFacade):
         '''return all of the prime keys that match the constraints'''
         # alignment of keys       runid  tgt    task   alg     sv     val
         constraints: list[set] = [set(), set(), set(), set(), set(), set()]
+        ranges = []
         results = set()
         for k, v in filter(lambda t: bool(t[1]), parameters._asdict().items()):
             if k == 'runids':
-                constraints[_align(k)].update(v)
+                # a range constrains by membership, not by being an element
+                ranges.extend(r for r in v if isinstance(r, Range))
+                constraints[_align(k)].update(
+                    i for i in v if not isinstance(i, Range)
+                )
                 constraints[_align(k)].discard(-1)
             else:
                 table = DBI().tables[_table_index(k)]
@@ -61,7 +66,14 @@ class SearchImplementation(SearchFacade):
                     subvalues = subtable.values() if subtable else [-1]
                     constraints[_align(k)].update(subvalues)
         for pk in prime_keys(DBI().tables.prime):
-            if all(not c or e in c for c, e in zip(constraints, pk)):
+            runid_ok = (
+                not (constraints[0] or ranges)
+                or pk[0] in constraints[0]
+                or any(pk[0] in r for r in ranges)
+            )
+            if runid_ok and all(
+                not c or e in c for c, e in zip(constraints[1:], pk[1:])
+            ):
                 results.add(pk[:keylen])
         return sorted(results)
 
@@ -98,7 +110,7 @@ class SearchImplementation(SearchFacade):
         '''
         items: [str] = []
         pks: [()] = self._prime_keys(parameters)
-        for pk in pks[index:limit]:
+        for pk in pks[index : (index + limit) if limit is not None else None]:
             rid = f'{pk[0]}'
             tgt = dissect(DBI().indices.target[pk[1]])[1]
             tn = dissect(DBI().indices.task[pk[2]])[1]
